@@ -502,7 +502,7 @@ cap_harness! { #[kani::unwind(22)] fn c19_respell_8() { check_respell::<8, 16>()
 // obtains its key -- with the three things it wires together as recorders: `Mnemonic::seed` (C02), `hdk::Path::for_index`
 // (C14) and `hdk::derive_slice` (C03). Decided: the seed is taken from THIS mnemonic with THIS password; without --hd-path the
 // key is derived along the path `for_index(account_index)` returns (account index symbolic, all 2^64 values), with --hd-path
-// along the parsed path and `for_index` is not consulted; errors of either step are passed on and nothing is derived then;
+// along the parsed path whatever `for_index` would say; errors of either step are passed on and nothing is derived then;
 // the key (or error) of the derivation is returned unchanged.
 static mut SEED_CALLS: usize = 0;
 static mut SEED_MNEMONIC_OK: bool = false;
@@ -630,14 +630,9 @@ fn account_selection_body<const WHICH: u8>() {
                 assert!(FI_CALLS == 1 && FI_INDEX == account_index, "default path is not for_index(account_index)");
                 !FI_FAILS
             }
-            1 => {
-                assert!(FI_CALLS == 0, "--hd-path given but the account index was used");
-                true
-            }
-            _ => {
-                assert!(FI_CALLS == 0);
-                false
-            }
+            // (whether for_index is consulted at all when --hd-path is given is not specified; its verdict must not matter)
+            1 => true,
+            _ => false,
         };
         if !path_ok {
             assert!(got.is_err(), "path error swallowed");
